@@ -585,7 +585,7 @@ func runC04(e *Env) error {
 		}
 	})
 	if e.Replay == "" {
-		c04Repoint(e)
+		c04Repoint(e, pool)
 	}
 	return nil
 }
